@@ -79,6 +79,36 @@ def CDM.concat (ms : List (CDM α)) : Except Err (CDM α) :=
   | [m] => .ok m
   | m :: rest => rest.foldlM (fun acc x => if acc.size != x.size then .error .valueError else acc.combine x) m
 
+/-! ### save / load -/
+
+/-- the content of a chunk file: the filled prefixes of the three arrays and the size -/
+structure CDMFile (α : Type) where
+  rows : List Int
+  cols : List Int
+  vals : List α
+  size : Int
+deriving Repr
+
+/-- `ChunkedDistanceMatrix.save`: `row_indices[:current_index]`, `col_indices[:current_index]`, `values[:current_index]`, `size`,
+    the indices written as the int64 they are -/
+def CDM.save (m : CDM α) : CDMFile α :=
+  { rows := m.entries.map (fun e => e.1), cols := m.entries.map (fun e => e.2.1), vals := m.entries.map (fun e => e.2.2), size := m.size }
+
+/-- `ChunkedDistanceMatrix.load`: the three arrays copied back side by side -/
+def CDM.load (f : CDMFile α) : CDM α :=
+  { size := f.size, entries := List.zip f.rows (List.zip f.cols f.vals) }
+
+/-- `np.int64(x).astype(np.int8)`: the value modulo 256 in `[-128, 128)` -/
+def toInt8 (x : Int) : Int := Int.emod (x + 128) 256 - 128
+
+/-- REGRESSION DEFINITION (seeded change S5-C07, not the code in /repo): `save` stores the indices in "the smallest dtype that
+    fits", chosen as int8 whenever `size ≤ 256` (forgetting the sign bit) -/
+def CDM.saveInt8 (m : CDM α) : CDMFile α :=
+  if m.size ≤ 256 then
+    { rows := m.entries.map (fun e => toInt8 e.1), cols := m.entries.map (fun e => toInt8 e.2.1),
+      vals := m.entries.map (fun e => e.2.2), size := m.size }
+  else m.save
+
 /-- `calculate_pairwise_distance_matrix_on_predictions` with `metric i j` standing for
     `distance_metric.distance(theta_i.predict_viability(data), theta_j.predict_viability(data))` -/
 def calcChunk (n c k : Int) (metric : Int → Int → α) : Except Err (CDM α) := do
@@ -139,6 +169,9 @@ def buildFrom {α : Type} (n : Int) (es : List (Int × Int × α)) : Except Err 
   es.foldlM (fun (acc : CDM α) e => acc.addValue e.1 e.2.1 e.2.2) (CDM.empty n)
 
 def handle : List String → Option String
+  | ["roundtrip", ms] => do
+      let ms ← parseCDMs? ms
+      pure ("/".intercalate (ms.map (fun m => showCDM (.ok (CDM.load (CDM.save m))))))
   | ["build", n, es] => do
       let n ← parseInt? n; let es ← parseEntries? es
       pure (showCDM (buildFrom n es))
